@@ -29,7 +29,7 @@ SPEC = {
     "group": "subscriber",
     "level": "model_checking",
     "harnesses": [],
-    "caps": {"quick_harness_timeout": 300, "thorough_harness_timeout": 900, "jobs": 8, "mem_gb": 20},
+    "caps": {"quick_harness_timeout": 600, "thorough_harness_timeout": 900, "jobs": 8, "mem_gb": 20},
     "functions": ["tracing_subscriber::registry::stack::SpanStack::{push, pop, iter, current}", "Registry::{enter, exit, current_span, new_span (contextual / explicit / root parent resolution)}", "LookupSpan::{span, span_data}, SpanData::parent, SpanRef::{parent, scope}, Scope::{next, from_root}"],
     "sym": "ids in the SpanStack kernel; metadata levels at registry level",
     "bounds": "kernel: all push/pop sequences of <= 4 (quick) / <= 5 (thorough) operations over ids {1,2,3}; registry: the C05 skeleton bounds",
